@@ -368,3 +368,10 @@ impl DestStack {
 }
 // `context.context()`: the locked context of the ACTIVE (destination) thread (R-lock): its thread, its own collector, its stack
 pub struct DestContext<'a> { pub thread: &'a Thread, pub gc: &'a mut Gc, pub stack: DestStack }
+
+// std::ptr::eq on threads: address comparison
+pub mod ptr {
+    use super::*;
+    #[verifier::external_body]
+    pub fn eq<T>(a: &Thread, b: &Thread) -> (r: bool) ensures r == (tid(*a) == tid(*b)) { unimplemented!() }
+}
